@@ -11,6 +11,9 @@ T3 call-site facts (booleans the model of model/Record.v branches on):
   print_crop_pad / log_crop_pad        the `pad=` keyword of split_and_crop_lines in print / log
   simplify_keeps_control               Segment.simplify refuses to merge when the *accumulated*
                                        segment is a control segment (DESIGN D12: absent in 9.10.0)
+  render_control_test_first            Console._render_buffer tests `not_terminal and is_control` before `if style:`
+                                       (so a styled control segment is dropped on a non-terminal too); false =
+                                       rich 9.10.0 as found, where the test only guarded the unstyled branch
   href_is_escaped                      export_html passes style.link through an escaping call before
                                        putting it into href="..." (absent in 9.10.0)
 Everything else at these sites must have the expected shape (fail closed).
@@ -173,4 +176,34 @@ def gen_record_facts(repo):
     else:
         raise Untranslatable(f"Segment.simplify: merge condition is {parts}")
     out.append(f"Definition simplify_keeps_control : bool := {_b(keeps)}.\n")
+    # Console._render_buffer: order of the control test and the style test in the loop
+    rb = find_func(console.body, "_render_buffer")
+    loops = [n for n in rb.body if isinstance(n, ast.For)]
+    if len(loops) != 1 or ast.unparse(loops[0].target) != "(text, style, is_control)":
+        raise Untranslatable("_render_buffer: expected one  for text, style, is_control in buffer  loop")
+    body = loops[0].body
+    ctl_test = "not_terminal and is_control"
+    if "not_terminal = not self.is_terminal" not in ast.unparse(rb):
+        raise Untranslatable("_render_buffer: not_terminal is not `not self.is_terminal`")
+
+    def _is_styled_append(stmts):
+        return (len(stmts) == 1 and "style.render(text, color_system=color_system, legacy_windows=legacy_windows)"
+                in ast.unparse(stmts[0]) and ast.unparse(stmts[0]).startswith("append("))
+
+    def _is_plain_append(stmts):
+        return len(stmts) == 1 and ast.unparse(stmts[0]) == "append(text)"
+    first = None
+    if (len(body) == 1 and isinstance(body[0], ast.If) and ast.unparse(body[0].test) == "style"
+            and _is_styled_append(body[0].body) and len(body[0].orelse) == 1 and isinstance(body[0].orelse[0], ast.If)
+            and ast.unparse(body[0].orelse[0].test) == f"not ({ctl_test})"
+            and _is_plain_append(body[0].orelse[0].body) and not body[0].orelse[0].orelse):
+        first = False
+    elif (len(body) == 2 and isinstance(body[0], ast.If) and ast.unparse(body[0].test) == ctl_test
+          and len(body[0].body) == 1 and isinstance(body[0].body[0], ast.Continue) and not body[0].orelse
+          and isinstance(body[1], ast.If) and ast.unparse(body[1].test) == "style"
+          and _is_styled_append(body[1].body) and _is_plain_append(body[1].orelse)):
+        first = True
+    if first is None:
+        raise Untranslatable("_render_buffer: loop body has neither of the two known shapes")
+    out.append(f"Definition render_control_test_first : bool := {_b(first)}.\n")
     return "".join(out)
